@@ -30,7 +30,7 @@ ASSUMPTIONS = [
 REAL_VS_STUB = "real: mici ChainState, cache decorators, systems, integrators, transitions; stub: none (cache misses injected through a ChainState subclass)"
 WALL_CAP_S = {"quick": 300, "thorough": 3000}
 MIN_EVALUATIONS = {"quick": 500, "thorough": 5000}
-N = {"quick": 320, "thorough": 16000}
+N = {"quick": 1600, "thorough": 40000}
 HIST_PER_SCN = 14
 
 
